@@ -35,7 +35,7 @@ DAG_BASES = {'quick': 4, 'thorough': 12}          # sentinel trees carrying the 
 XH_SENTINELS = {'quick': 16, 'thorough': 60}       # sentinels judged after every batch
 POISON_KINDS = ('int-name', 'none-name', 'alien-str', 'alien-none', 'bad-ctc', 'bad-attr', 'unwritable')
 ALL_PIDS = ['C%02d' % i for i in range(1, 21)]
-SKIP_KINDS = ('ENV', 'HUGE', 'CORPUS', 'B', 'DC', 'MB', 'CL', 'WG', 'A', 'WIDE', 'MR', 'CP', 'CN', 'XT', 'ST')     # expensive single cases (big models, sub-processes)
+SKIP_KINDS = ('ENV', 'HUGE', 'CORPUS', 'B', 'DC', 'MB', 'CL', 'WG', 'A', 'WIDE', 'MR', 'CP', 'CN', 'XT', 'ST', 'RL')     # expensive single cases (big models, sub-processes)
 
 
 # ----------------------------------------------------------------------------- isolation
